@@ -67,7 +67,7 @@ REGISTRY = {
                 tie=['tieA_ladder', 'tieA_guards', 'tieA_guard_packers', 'tieA_toggle'], lanes=['enc_tint', 'enc_prim/enc.prim.short_int,enc.prim.short_uint,enc.prim.long_int,enc.prim.long_uint,enc.prim.long_long_int', 'api_toggle'], oracles=['c11']),
     'C12': dict(mods=['C12'], thms=['C12_perm_invariant', 'C12_table_perm_invariant', 'C12_sorted', 'C12_sorted_perm', 'C12_order_total', 'C12_order_antisymm'],
                 tie=['tieA_no_shared_mutation'], lanes=['enc_value:ok', 'cpython_sort'], oracles=['c12']),
-    'C13': dict(mods=['C13', 'C13Ctor'], thms=['C13_constructor_iff', 'C13_unconstrained_accepts', 'C13_rules_eq_spec', 'C13_constrained_classes_exist', 'C13_ctor_validates', 'C13_char_class', 'C13_char_count', 'C13_validate_iff', 'C13_marshal_revalidates', 'C13_decode_never_validates'],
+    'C13': dict(mods=['C13', 'C13Ctor', 'C13Props'], thms=['C13_constructor_iff', 'C13_unconstrained_accepts', 'C13_props_constructor_iff', 'C13_rules_eq_spec', 'C13_constrained_classes_exist', 'C13_ctor_validates', 'C13_char_class', 'C13_char_count', 'C13_validate_iff', 'C13_marshal_revalidates', 'C13_decode_never_validates'],
                 tie=['tieA_domain_regex', 'tieA_runtime_agrees'], lanes=['validate', 'ctor', 'ctor_args', 'cpython_regex'], oracles=['c13']),
     'C14': dict(mods=['C14'], thms=['C14_catalogue_eq_spec', 'C14_count', 'C14_index', 'C14_keys_distinct', 'C14_sync_iff_replies', 'C14_replies_same_class', 'C14_python_names', 'C14_properties_eq_spec', 'C14_construct_defaults'],
                 tie=['tieA_runtime_agrees'], lanes=['ctor'], oracles=['c14']),
@@ -79,7 +79,7 @@ REGISTRY = {
                 tie=['tieA_reply_codes', 'tieA_class_mapping', 'tieA_constant_values', 'tieA_runtime_agrees'], lanes=[], oracles=['c17']),
     'C18': dict(mods=['C18'], thms=['C18_body', 'C18_empty_body', 'C18_heartbeat', 'C18_protocol_header'],
                 tie=['tieA_envelope_struct_uses', 'tieA_protocol_header_struct_uses', 'tieA_frame_constants', 'tieA_constant_values'], lanes=['frame/frame.marshal.B,frame.marshal.P,frame.marshal.HB,frame.unmarshal.B,frame.unmarshal.P,frame.unmarshal.HB,frame.envelope'], oracles=['c18']),
-    'C19': dict(mods=['C19'], thms=['C19_slots_distinct', 'C19_mapping', 'C19_amqp_type'],
+    'C19': dict(mods=['C19', 'C13Props'], thms=['C19_slots_distinct', 'C19_mapping', 'C19_amqp_type', 'C19_constructed_iter'],
                 tie=[], lanes=['ctor', 'mapping'], oracles=['c19']),
     'C20': dict(mods=['C20'], thms=['C20_short', 'C20_parts', 'C20_ranges', 'C20_peek_agrees', 'C20_body_accepted'],
                 tie=['tieA_envelope_struct_uses', 'tieA_frame_constants', 'tieA_constant_values', 'tieA_frame_except_sites'], lanes=['frame/frame.parts,frame.envelope,frame.unmarshal'], oracles=['c20']),
